@@ -23,7 +23,7 @@ def _job(job):
                 for p, k, d in mo.laws_case(b, x, a, 'strategy=%r' % (mergespace.args_key(a),)):
                     out.append((k, d, {'seed': seed, 'index': pi, 'n': n, 'kind': kind, 'strategy': list(mergespace.args_key(a))}))
     elif kind == 'symmetry':
-        for ti, (b, l, r) in enumerate(nbspace.triples(seed, n, max_edits=2)):
+        for ti, (b, l, r) in enumerate(nbspace.triples(seed, n, max_edits=2, tail=True)):
             for a in mergespace.sample_args(rnd, 5):
                 from .c03 import KNOWN as C03_KNOWN
                 fails, applicable = mo.symmetry_case(b, l, r, a, known_crash_sites=set(C03_KNOWN))
